@@ -44,15 +44,26 @@ class MachineryError(Exception):
     """Something in the verification machinery failed (exit 2, never a violation)."""
 
 
+class DriverHang(Exception):
+    """a driver (rpylib code under scripted inputs) did not finish within its time limit: the code under test hangs"""
+
+    def __init__(self, module, timeout):
+        super().__init__(f"driver {module} did not finish within {timeout} s")
+        self.module, self.timeout = module, timeout
+
+
 def run_driver(module: str, args=(), extra_env=None, timeout=1800):
     """Run `python -m harness.drivers.<module> args...` in a fresh interpreter that imports rpylib
     from /repo's current working tree.  Returns (stdout, wall seconds)."""
     cmd = [PYTHON, "-m", "harness.drivers." + module, *map(str, args)]
     t0 = time.time()
-    p = subprocess.run(
-        cmd, cwd=VERIF, env=driver_env(extra_env), stdout=subprocess.PIPE, stderr=subprocess.PIPE,
-        text=True, timeout=timeout,
-    )
+    try:
+        p = subprocess.run(
+            cmd, cwd=VERIF, env=driver_env(extra_env), stdout=subprocess.PIPE, stderr=subprocess.PIPE,
+            text=True, timeout=timeout,
+        )
+    except subprocess.TimeoutExpired:
+        raise DriverHang(module, timeout)
     if p.returncode != 0:
         sys.stderr.write(p.stdout[-4000:])
         sys.stderr.write(p.stderr[-8000:])
